@@ -9,6 +9,7 @@ import sys
 import torch
 
 from ..extract import c19_guards
+from . import c19_pairs
 
 F64 = torch.float64
 
@@ -764,6 +765,129 @@ def gen_cases(chk, tier, collect=None):
                     recs.append({"cell": cell, "key": key, "cls": cname, "b": list(b), "n": n, "op": opname, "kind": kind, "shape": list(shape),
                                  "operand": list(ts) if ts is not None else None, "idx": idx, "others": others, "debug": dbg,
                                  "impl": iv, "torch": tv, "model_line": ml, "mode": mode, "spec_line": sl})
+    recs += gen_square_cases(chk, tier, todo)
+    recs += gen_pair_cases(chk, tier)
+    return recs
+
+
+
+# --------------------------------------------------------------------------------------------------
+# operator ⋆ operator pairs with differing structural parameters (harness/checks/c19_pairs.py)
+# --------------------------------------------------------------------------------------------------
+def _pair_base(tag):
+    """`base=2x3x3` -> [2, 3, 3] (plain dense base, default block dimension) else None"""
+    if tag.startswith("base=") and ";" not in tag and ":" not in tag:
+        return [int(x) for x in tag[5:].split("x")]
+    return None
+
+
+def pair_model_line(fa, ta, fb, tb, a, b, op):
+    """Lean model of the operator-operator shortcut, where one is modelled; else the base guard (one-directional)."""
+    sa, sb = shp(tuple(a.shape)), shp(tuple(b.shape))
+    if op in ("matmul", "tmatmul"):
+        if fa == fb == "BlockDiag" and _pair_base(ta) and _pair_base(tb):
+            return f"bdpair {shp(_pair_base(ta))} {shp(_pair_base(tb))}", "full"
+        if fa == fb == "Diag":
+            return f"diagpair {shp(tuple(a.shape)[:-1])} {shp(tuple(b.shape)[:-1])}", "full"
+        return f"mm base {sa} {sb}", "guard"
+    if op in ("add", "sub") and fa in ("ConstantDiag", "Identity") and fb in ("ConstantDiag", "Identity"):
+        return f"cdadd {shp(tuple(a.shape)[:-1])} {shp(tuple(b.shape)[:-1])}", "full"
+    return None, None
+
+
+def gen_pair_cases(chk, tier, only=None):
+    """ordered pairs of structured operators (same family: all structural parameters; different families: small pools)."""
+    pl = c19_pairs.pool(chk.rng, tier)
+    dense = {}
+    for i, (fam, tag, a, _) in enumerate(pl):
+        if isinstance(a, Exception):
+            chk.proof_break("catalogue", f"cannot construct pair operand {fam}:{tag}: {a!r}")
+            continue
+        try:
+            dense[i] = a.to_dense().to(F64)
+            if tuple(dense[i].shape) != tuple(a.shape):
+                raise RuntimeError(f"to_dense shape {tuple(dense[i].shape)} != shape {tuple(a.shape)}")
+        except Exception as e:
+            chk.count(f"catalogue-skip:pair:{fam}:{tag}:{type(e).__name__}")
+    recs = []
+    for i, j, ops in c19_pairs.plan(pl, tier):
+        if i not in dense or j not in dense:
+            continue
+        fa, ta, a, _ = pl[i]
+        fb, tb, b, _ = pl[j]
+        for op, dbg in ops:
+            rel = c19_pairs.relation(op, tuple(a.shape), tuple(b.shape))
+            cell = f"C19/pair/{fa}:{ta}/{op}/{fb}:{tb}/{rel}/debug={'on' if dbg else 'off'}"
+            if only is not None and cell != only:
+                continue
+            if rel.startswith("ew1"):
+                # torch broadcasts a size-1 MATRIX dimension of one operator against the other: valid for torch, not an
+                # "incompatible shape"; the library's elementwise shortcuts are not required to reproduce it (not swept)
+                chk.count("pair-skipped:matrix-dim-broadcast")
+                continue
+            try:
+                iv, tv, veq = c19_pairs.run_pair(a, b, dense[i], dense[j], op, dbg)
+            except Exception as e:
+                chk.proof_break("harness", f"{cell}: {e!r}")
+                continue
+            ml, mode = pair_model_line(fa, ta, fb, tb, a, b, op) if dbg else (None, None)
+            sl = None
+            if dbg:
+                sl = (f"torchmm {shp(tuple(a.shape))} {shp(tuple(b.shape))}" if op in ("matmul", "tmatmul")
+                      else f"bc {shp(tuple(a.shape))} {shp(tuple(b.shape))}")
+            recs.append({"cell": cell, "key": fa, "cls": class_name(a), "b": [], "n": 0, "op": "pair-" + op, "kind": rel,
+                         "shape": list(a.shape), "operand": list(b.shape), "idx": None, "others": [fa, ta, fb, tb, op], "debug": dbg,
+                         "impl": iv, "torch": tv, "model_line": ml, "mode": mode, "spec_line": sl, "pair": True,
+                         "valeq": veq if op != "mul" else None})
+    return recs
+
+
+# --------------------------------------------------------------------------------------------------
+# square-only operations on rectangular operators
+# --------------------------------------------------------------------------------------------------
+SQUARE_OPS = ["logdet", "cholesky", "eigh", "eigvalsh", "diagonalization", "root_decomposition", "root_inv_decomposition",
+              "inverse", "diagonal", "add_jitter", "solve", "inv_quad", "inv_quad_logdet", "add_diagonal"]
+# methods for which torch has no dense counterpart that refuses a rectangular matrix (`diagonal` of a 3x4 tensor is defined,
+# `D + jitter * eye(m, n)` is defined): only the model (guard table) is compared, not the property
+SQUARE_NO_SPEC = {"diagonal", "add_jitter"}
+
+
+def gen_square_cases(chk, tier, todo):
+    import linear_operator.operators as O
+    recs = []
+    for key, op, b, n, nested in todo:
+        if nested or isinstance(op, Exception):
+            continue
+        shape = tuple(op.shape)
+        if shape[-1] == shape[-2]:
+            continue
+        cname = class_name(op)
+        tagb = f"b={shp(b)}" + ("" if n == 3 else f"|n={n}")
+        for meth in SQUARE_OPS:
+            if not hasattr(op, meth):
+                continue
+            args = {"solve": (ones(shape[:-2] + (shape[-1], 2)),), "inv_quad": (ones(shape[:-2] + (shape[-1], 2)),),
+                    "inv_quad_logdet": (ones(shape[:-2] + (shape[-1], 2)),), "add_diagonal": (ones((shape[-1],)),)}.get(meth, ())
+
+            def f(meth=meth, args=args):
+                r = getattr(op, meth)(*args)
+                if isinstance(r, tuple):
+                    r = r[0]
+                if r is not None and not torch.is_tensor(r) and hasattr(r, "to_dense"):
+                    r.to_dense()
+                return r
+            try:
+                r = f()
+                iv = ("ok", tuple(r.shape) if hasattr(r, "shape") else ())
+            except Exception as e:  # noqa
+                iv = ("raise", type(e).__name__)
+            tv = ("ok", iv[1] if iv[0] == "ok" else ()) if meth in SQUARE_NO_SPEC else ("raise", "RuntimeError")
+            cell = f"C19/{key}/square-{meth}/rect/{tagb}/debug=on"
+            ml = f"squareof {cname} {meth} {shp(shape)}" if cname in dict(c19_guards.extract.mros) else None
+            recs.append({"cell": cell, "key": key, "cls": cname, "b": list(b), "n": n, "op": "square-" + meth, "kind": "rect",
+                         "shape": list(shape), "operand": None, "idx": None, "others": None, "debug": True,
+                         "impl": iv, "torch": tv, "model_line": ml, "mode": "guard" if ml else None, "spec_line": None, "pair": True,
+                         "valeq": None})
     return recs
 
 
@@ -803,6 +927,9 @@ def classify(chk, recs, outs, baseline, collect=None):
             viol = f"accepted although torch rejects: returned shape {iv[1]}; torch raises {tv[1]}"
         elif valid and iv[0] == "ok" and tuple(iv[1]) != tuple(tv[1]):
             viol = f"returned shape {iv[1]} but torch produces {tv[1]}"
+        if not viol and r.get("valeq") is False:
+            viol = "accepted with torch's shape but DIFFERENT VALUES from the dense computation"
+            cell = cell + "/value"
         if viol:
             if collect is not None:
                 collect.setdefault("viol", []).append(cell)
@@ -830,7 +957,7 @@ def classify(chk, recs, outs, baseline, collect=None):
                 chk.traces_validated += 1
         # (3) a torch-valid operand that is rejected: only allowed where the model's guard rejects it
         #     or the unchanged library is known to (strict baseline)
-        if valid and iv[0] == "raise":
+        if valid and iv[0] == "raise" and not r.get("pair"):
             if collect is not None:
                 collect.setdefault("strict", []).append(cell)
             explained = (mo is not None and not mo.startswith("ok")) or _coarse(cell) in baseline
@@ -845,7 +972,13 @@ def run(chk, collect=None):
                 "add_diagonal, expand, cat, int/tensor indexing at every position} × shape kinds (valid; size-1 inner; wrong inner; 0-d; "
                 "non-broadcastable batch; extra/missing dims; index = size, size+1, −size−1) × settings.debug on/off; values are seed-random "
                 "integers, the verdict (raise / result shape) is compared with torch on the dense tensor and with the Lean guard model; "
-                "distinct = distinct cell × operand shape")
+                "distinct = distinct cell × operand shape.  PLUS (harness/checks/c19_pairs.py) ordered pairs of structured operators whose structural "
+                "parameters differ (block count / block size, Kronecker factor sizes, diagonal length 1/3/4/6, batch (), (2,), (1,), (3,), (2,1), root rank; "
+                "37 families): same family = full cross product, different families = small pools (+/- for every ordered pair of families, @ and * between "
+                "the families that dispatch on each other; thorough: all) under @, torch.matmul, +, -, *; verdict, shape and (for accepted pairs, not *) values "
+                "vs torch on the dense matrices; pairs that differ only by a torch-broadcastable size-1 matrix dimension are not judged.  PLUS square-only "
+                "methods (logdet, cholesky, eigh, eigvalsh, diagonalization, root decompositions, inverse, solve, inv_quad(_logdet), add_diagonal) on every "
+                "rectangular instance must raise; compared with the generated is_square guard table through the Lean model")
     chk.assumptions += ["torch's verdict on the densified operator (cast to float64) is the specification",
                         "an operator result that raises when first evaluated (lazy shape / to_dense) counts as a raise",
                         "solve-type operations on non-PSD catalogue instances may raise for numerical reasons (NotPSDError); such raises are accepted"]
@@ -876,6 +1009,29 @@ def replay(chk, payload):
     from linear_operator import settings
     ops_t, definers_l, overrides, base_guards = c19_guards.generate()
     rng = random.Random(0)
+    if str(pl.get("op", "")).startswith("pair-"):
+        chk.rng = rng
+        base = pl["cell"][:-len("/value")] if pl["cell"].endswith("/value") else pl["cell"]
+        recs = gen_pair_cases(chk, "thorough", only=base)
+        for r in recs:
+            iv, tv = r["impl"], r["torch"]
+            chk.case(json.dumps(pl))
+            print(f"replay {r['cell']}: impl {iv}  torch {tv}  values-equal {r['valeq']}")
+            if (tv[0] == "raise" and iv[0] == "ok") or (tv[0] == "ok" and iv[0] == "ok" and tuple(iv[1]) != tuple(tv[1])):
+                chk.violation(r["cell"], f"impl {iv} torch {tv}", pl)
+            elif r["valeq"] is False:
+                chk.violation(r["cell"] + "/value", f"impl {iv} torch {tv}: values differ", pl)
+        return
+    if str(pl.get("op", "")).startswith("square-"):
+        chk.rng = rng
+        todo = [(k, o, tuple(pl["b"]), pl.get("n", 3), False) for k, o in instances(rng, tuple(pl["b"]), n=pl.get("n", 3)) if k == pl["key"]]
+        for r in gen_square_cases(chk, "thorough", todo):
+            if r["cell"] == pl["cell"]:
+                chk.case(json.dumps(pl))
+                print(f"replay {r['cell']}: impl {r['impl']}  required {r['torch']}")
+                if r["torch"][0] == "raise" and r["impl"][0] == "ok":
+                    chk.violation(r["cell"], f"impl {r['impl']} on a rectangular operator", pl)
+        return
     if pl.get("n", 3) == 6:
         op = dict(nested_instances(rng, tuple(pl["b"])))[pl["key"]]
     else:
